@@ -168,6 +168,12 @@ pub fn op_scenario(req: &Value) -> Value {
         .map(|a| a.iter().map(|t| t.as_array().cloned().unwrap_or_default()).collect())
         .unwrap_or_default();
     let n = threads.len();
+    // Load libclang before any actor exists: its one-time initialiser runs
+    // external commands (llvm-config) inside a `OnceLock`, and a thread parked
+    // at a syscall-level yield point there would hold the `Once` against every
+    // other actor. (The per-thread part of `ensure_libclang_is_loaded` still
+    // runs, and is interleaved, in every actor.)
+    let _ = bindgen::clang_version();
     bindgen::verif::salt::set(ju64(req, "salt").unwrap_or(0));
     if let Some(seed) = ju64(req, "hash_seed") {
         reseed_getrandom(seed);
@@ -306,13 +312,16 @@ extern "C" fn sys_hook(op: *const libc::c_char, path: *const libc::c_char) {
     };
     // only files a generation may share with its neighbours: the scenario's
     // scratch directories and anything relative to the working directory
-    let shared = !path.starts_with(b"/") || path.windows(9).any(|w| w == b"bvsim-c11");
+    let process_op = op == b"spawn" || op == b"wait";
+    let shared = process_op || !path.starts_with(b"/") || path.windows(9).any(|w| w == b"bvsim-c11");
     if !shared {
         return;
     }
     let label: &'static str = match op {
         b"rename" => "sys.rename",
         b"unlink" => "sys.unlink",
+        b"spawn" => "sys.spawn",
+        b"wait" => "sys.wait",
         _ => "sys.open-write",
     };
     let sched = SYS_SCHED.lock().unwrap().clone();
